@@ -205,5 +205,12 @@ func HC01Data() {
 	if bom || !bin {
 		vAssert(r.Parent() != nil, "e2e-no-binary-byte-implies-classified")
 	}
+	// C02 / C15 end to end: the result's string parses, names a registered format, carries at most a
+	// charset parameter, its ancestors are bare and rooted, and the equality helpers accept it
+	if node := Lookup(l1BareType(r.String())); node != nil {
+		c02Check(r, node, "data")
+	} else {
+		vAssert(false, "data:registered-type")
+	}
 	vReach("end")
 }
